@@ -450,6 +450,29 @@ impl<T> DataReaderEntity<T> {
             return Ok(AddChangeResult::NotAdded);
         }
 
+        // With KEEP_LAST the oldest sample of a full instance is replaced by the new one, so it does not count
+        // towards the resource limits of the new sample
+        let index_sample_to_replace =
+            if let HistoryQosPolicyKind::KeepLast(depth) = self.qos.history.kind {
+                let num_alive_samples_of_instance = self
+                    .sample_list
+                    .iter()
+                    .filter(|cc| {
+                        cc.instance_handle == sample.instance_handle && cc.kind == ChangeKind::Alive
+                    })
+                    .count() as u32;
+                if depth == num_alive_samples_of_instance {
+                    self.sample_list.iter().position(|cc| {
+                        cc.instance_handle == sample.instance_handle && cc.kind == ChangeKind::Alive
+                    })
+                } else {
+                    None
+                }
+            } else {
+                None
+            };
+        let num_replaced_samples = usize::from(index_sample_to_replace.is_some());
+
         let is_max_samples_limit_reached = {
             let total_samples = self
                 .sample_list
@@ -457,7 +480,7 @@ impl<T> DataReaderEntity<T> {
                 .filter(|cc| cc.kind == ChangeKind::Alive)
                 .count();
 
-            total_samples == self.qos.resource_limits.max_samples
+            total_samples - num_replaced_samples == self.qos.resource_limits.max_samples
         };
         let is_max_instances_limit_reached = {
             let mut instance_handle_list = Vec::new();
@@ -480,7 +503,8 @@ impl<T> DataReaderEntity<T> {
                 .filter(|cc| cc.instance_handle == sample.instance_handle)
                 .count();
 
-            total_samples_of_instance == self.qos.resource_limits.max_samples_per_instance
+            total_samples_of_instance - num_replaced_samples
+                == self.qos.resource_limits.max_samples_per_instance
         };
         if is_max_samples_limit_reached {
             return Ok(AddChangeResult::Rejected(
@@ -498,25 +522,8 @@ impl<T> DataReaderEntity<T> {
                 SampleRejectedStatusKind::RejectedBySamplesPerInstanceLimit,
             ));
         }
-        let num_alive_samples_of_instance = self
-            .sample_list
-            .iter()
-            .filter(|cc| {
-                cc.instance_handle == sample.instance_handle && cc.kind == ChangeKind::Alive
-            })
-            .count() as u32;
-
-        if let HistoryQosPolicyKind::KeepLast(depth) = self.qos.history.kind {
-            if depth == num_alive_samples_of_instance {
-                let index_sample_to_remove = self
-                    .sample_list
-                    .iter()
-                    .position(|cc| {
-                        cc.instance_handle == sample.instance_handle && cc.kind == ChangeKind::Alive
-                    })
-                    .expect("Samples must exist");
-                self.sample_list.remove(index_sample_to_remove);
-            }
+        if let Some(index_sample_to_remove) = index_sample_to_replace {
+            self.sample_list.remove(index_sample_to_remove);
         }
 
         match sample.kind {
